@@ -316,6 +316,13 @@ theorem mem_individualPhase {env : Env} {ph : Bool} {len : Nat} {root : List RNo
   simp only [individualPhase, List.mem_flatMap]
   exact ⟨g, hg, t, ht, hi _⟩
 
+/-- the same with the definition status of the group spelled out -/
+theorem mem_individualPhase' {env : Env} {ph : Bool} {len : Nat} {root : List RNode} {g : GV} {t : RTag} {i : Issue}
+    (hg : g ∈ allGroups len root) (ht : t ∈ directTags g.kids)
+    (hi : i ∈ tagSemIssues env ph (isDefGroup env root g) t) : i ∈ individualPhase env ph len root := by
+  simp only [individualPhase, List.mem_flatMap]
+  exact ⟨g, hg, t, ht, hi⟩
+
 theorem mem_sem_of_individual {env : Env} {ph isDef : Bool} {t : RTag} {i : Issue}
     (h : i ∈ individualIssues env ph isDef t) : i ∈ tagSemIssues env ph isDef t := by
   simp only [tagSemIssues, List.mem_append]
@@ -441,21 +448,20 @@ theorem injected_missing_required_child (env : Env) (ph : Bool) (text : Str) (g 
     exact Or.inl (mem_individualPhase hg ht hi)
   exact conclude (reach_sem hS hNA hT hM) rfl rfl
 
-/-- stray placeholder: placeholders not allowed, a tag outside a definition has `#` in its extension -/
+/-- stray placeholder: placeholders not allowed, a tag whose group is not (inside) a top-level Definition group
+has `#` in its extension -/
 theorem injected_stray_placeholder (env : Env) (text : Str) (g : GV) (t : RTag)
     (hS : hasError (S env false text) = false) (hNA : NA env text = false)
     (hT : hasError (S env false text ++ T env false text) = false)
     (hg : g ∈ allGroups text.length (parse env text).root1) (ht : t ∈ directTags g.kids)
-    (hdef : (g.isGroup && (definitionGroups env (parse env text).root1).any (fun d => listEq env g.kids d)) = false)
+    (hdef : isDefGroup env (parse env text).root1 g = false)
     (hp : '#' ∈ extension t) :
     Spec.codeOf .strayPlaceholder ∈ codes (errors (validate env false text)) := by
   obtain ⟨k, hk⟩ := placeholderFrom_mem t ((orgBase t).length + 1) (extension t) 0 hp
   have hM : ({ subIssue .invalidTagCharacter t ((orgBase t).length + 1 + k) ((orgBase t).length + 1 + k + 1) with
       code := val_PLACEHOLDER_INVALID } : Issue) ∈ M env false text := by
     simp only [M, semIssues, List.mem_append]
-    refine Or.inl ?_
-    simp only [individualPhase, List.mem_flatMap]
-    refine ⟨g, hg, t, ht, ?_⟩
+    refine Or.inl (mem_individualPhase' hg ht ?_)
     rw [hdef]
     apply mem_sem_of_individual
     simp only [individualIssues, List.mem_append]
@@ -1919,7 +1925,7 @@ structure Clean (env : Env) (ph : Bool) (text : Str) : Prop where
   tagChars : ∀ t ∈ tagsList (parse env text).root0, errors (tagCharIssues env ph t) = []
   lookup : errors (parse env text).lookup = []
   tags : ∀ g ∈ allGroups text.length (parse env text).root1, ∀ t ∈ directTags g.kids,
-    errors (tagSemIssues env ph false t) = [] ∧ errors (tagSemIssues env ph true t) = []
+    errors (tagSemIssues env ph (isDefGroup env (parse env text).root1 g) t) = []
   noDef : ∀ g ∈ allGroups text.length (parse env text).root1, errors (defIssuesOf env g.kids) = []
   required : errors (requiredIssues env (tagsList ((parse env text).final env))) = []
   unique : errors (uniqueIssues env (tagsList ((parse env text).final env))) = []
@@ -1942,10 +1948,7 @@ theorem clean_T {env : Env} {ph : Bool} {text : Str} (h : Clean env ph text) : e
 theorem clean_M {env : Env} {ph : Bool} {text : Str} (h : Clean env ph text) : errors (M env ph text) = [] := by
   simp only [M, semIssues, errors_append, individualPhase, defPhase]
   rw [errors_flatMap_nil _ _ h.noDef]
-  rw [errors_flatMap_nil _ _ (fun g hg => errors_flatMap_nil _ _ (fun t ht => by
-    cases hb : (g.isGroup && (definitionGroups env (parse env text).root1).any fun d => listEq env g.kids d) with
-    | false => exact (h.tags g hg t ht).1
-    | true => exact (h.tags g hg t ht).2))]
+  rw [errors_flatMap_nil _ _ (fun g hg => errors_flatMap_nil _ _ (h.tags g hg))]
   rfl
 
 theorem clean_F {env : Env} {ph : Bool} {text : Str} (h : Clean env ph text) : errors (F env text) = [] := by
@@ -1981,7 +1984,8 @@ open HedVerif HedVerif.Schema HedVerif.Validate HedVerif.C01
 def names : List Str :=
   [['R','e','d'], ['I','t','e','m'], ['I','t','e','m','/','O','b','j','e','c','t'], ['L','a','b','e','l'],
    ['L','a','b','e','l','/','#'], ['E','v','e','n','t','-','c','o','n','t','e','x','t'], ['D','e','f'], ['D','e','f','/','#'],
-   ['D','e','f','-','e','x','p','a','n','d'], ['D','e','f','-','e','x','p','a','n','d','/','#']]
+   ['D','e','f','-','e','x','p','a','n','d'], ['D','e','f','-','e','x','p','a','n','d','/','#'],
+   ['D','e','f','i','n','i','t','i','o','n'], ['D','e','f','i','n','i','t','i','o','n','/','#']]
 
 /-- Red; Item (extension allowed) > Object; Label (requireChild) > # (takesValue, nameClass);
 Event-context (topLevelTagGroup, unique); Def (requireChild) > # -/
@@ -1991,7 +1995,8 @@ def env : Env :=
                { takesValue := true, valueClasses := [['n','a','m','e','C','l','a','s','s']], parent := some 3 },
                { topLevelTagGroup := true, unique := true }, { requireChild := true },
                { takesValue := true, parent := some 6 }, { requireChild := true, tagGroup := true },
-               { takesValue := true, parent := some 8 }],
+               { takesValue := true, parent := some 8 }, { requireChild := true, topLevelTagGroup := true },
+               { takesValue := true, parent := some 10 }],
     mods := [], unitClasses := #[], modern := true, cd := {} }
 
 def red : Str := ['R','e','d']
@@ -2069,5 +2074,30 @@ example : Spec.codeOf .wrongDefValue ∈ codes (errors (validate envD false ['D'
 example : Spec.codeOf .alteredDefExpand ∈ codes (errors (validate envD false
     ['(','D','e','f','-','e','x','p','a','n','d','/','A',',','(','I','t','e','m',')',')'])) := by decide +kernel
 example : Spec.codeOf .undeclaredDef ∈ codes (errors (validate envD false ['D','e','f','/','Z'])) := by decide +kernel
+
+/-! #### definition content is positional (fix 5440313) -/
+
+/-- a copy of the definition's inner group outside the definition: same member order / other order -/
+def copySame : Str := ['(','R','e','d',',','(','L','a','b','e','l','/','#',',','I','t','e','m',')',')',',','(','D','e','f','i','n','i','t','i','o','n','/','N','/','#',',','(','L','a','b','e','l','/','#',',','I','t','e','m',')',')']
+def copySwapped : Str := ['(','R','e','d',',','(','I','t','e','m',',','L','a','b','e','l','/','#',')',')',',','(','D','e','f','i','n','i','t','i','o','n','/','N','/','#',',','(','L','a','b','e','l','/','#',',','I','t','e','m',')',')']
+
+/-- `is_definition` of every group, in `get_all_groups` order (the string, the outer group, the copy, the
+Definition group, its inner group) -/
+def defFlags (text : Str) : List Bool :=
+  (allGroups text.length (parse env text).root1).map (isDefGroup env (parse env text).root1)
+def defFlagsOld (text : Str) : List Bool :=
+  (allGroups text.length (parse env text).root1).map (isDefGroupOld env (parse env text).root1)
+
+/-- **Counter-example for the structural test** (`group in all_definition_groups`, before fix 5440313): whether the
+copy outside the definition was excused depended on the order of its members; the positional test excuses it in
+neither spelling, and both spellings now report the stray placeholder. -/
+theorem is_definition_structural_counterexample :
+    defFlagsOld copySame = [false, false, true, true, true] ∧
+    defFlagsOld copySwapped = [false, false, false, true, true] ∧
+    defFlags copySame = [false, false, false, true, true] ∧
+    defFlags copySwapped = [false, false, false, true, true] ∧
+    Spec.codeOf .strayPlaceholder ∈ codes (errors (validate env false copySame)) ∧
+    Spec.codeOf .strayPlaceholder ∈ codes (errors (validate env false copySwapped)) := by
+  decide +kernel
 
 end HedVerif.C01.Tiny
